@@ -60,7 +60,7 @@ HOSTILE = ['index', 'index', 'sect0001', 'sect0002', 'sect0003', 'index.html', '
 def cases(seed, tier, shard, nshards):
     for i in common.sharded(budget(tier)['n'], shard, nshards):
         r = common.rng_for(seed, PROP, i)
-        d = docs.gen(r, parts=r.random() < 0.2, labels=True, refs=True, depth=r.choice([1, 2]), maxsec=r.choice([3, 6, 10]), counters=False,
+        d = docs.gen(r, grouped_heads=r.choice([0, 0.3]), parts=r.random() < 0.2, labels=True, refs=True, depth=r.choice([1, 2]), maxsec=r.choice([3, 6, 10]), counters=False,
                      hostile_labels=r.choice([0, 0, 0.5]), hostile_pool=HOSTILE, theorems=r.random() < 0.4, eqnarray=r.random() < 0.5, blocks=(1, 3), cls=r.choice(['article', 'book']), verbatim=False, fonts=False)
         # framed references at the very end of the last unit
         labels = list(d['labels'])
